@@ -312,8 +312,16 @@ def c01(res: Result):
     for j, strat in enumerate(COMPLETE_DEFAULT):
         tasks += gadget_tasks(f"g{j}", [strat + [{"op": "expseeds"}]])
     tasks += feature_tasks("f", [strat + [{"op": "expseeds"}] for strat in COMPLETE_DEFAULT])
+    # candidates requested first without any minimisation (several candidates per attractor reach the symbolic elimination)
+    raw = [{"op": "cand", "n": k, "greedy": False, "sim": False} for k in range(1, 9)]
+    rawpats = [strat + raw + [{"op": "expseeds"}] for strat in (COMPLETE_DEFAULT[2], COMPLETE_DEFAULT[1], COMPLETE_DEFAULT[5])]
+    tasks += feature_tasks("fc", rawpats, kinds=["multi_complex_in_min_trap", "multi_attr_in_min_trap", "complex_attr", "maa", "sync_escape"], max_n=6)
+    tasks += gadget_tasks("gc", rawpats[:1])
+    for i, tt in enumerate(pool[:N(q, 120, 1500)]):
+        tasks.append({"tid": f"c{i}", "tt": tt, "ops": rawpats[i % 3], "meta": "random net, unminimised candidates first"})
     invs = ["Inv_C01", "Inv_WF", "Inv_HANG"]
-    res.cov["rule"] = ("Each of the six complete strategies with default settings on a fresh diagram, then seeds for every expanded node; TLC computes "
+    res.cov["rule"] = ("Each of the six complete strategies with default settings on a fresh diagram, then seeds for every expanded node (also after "
+                       "candidates were requested without minimisation, so that several candidates per attractor reach the symbolic elimination); TLC computes "
                        "the attractors (terminal SCCs of the asynchronous transition graph) from the truth tables and checks the bijection and that "
                        "each seed lies in an attractor inside its node and none of its successors. Non-trivial: networks with >= 2 attractors or an "
                        "attractor outside every minimal trap space.")
